@@ -184,3 +184,52 @@ def registration(vc):
             vc.ensure('%s is generated by %s of the same model' % (name, gname),
                       getattr(getattr(gen, 'func', None), 'qualname', '').endswith('.' + gname) and getattr(gen, 'self_obj', None) is model)
     vc.canary('canary: reachable', z3.BoolVal(False))
+
+
+# ---------------------------------------------------------------------------------------------
+# the argument-order seam: what a compiled evaluator is called with
+
+def make_eval_param(state_kind):
+    @contract('C01/_getEvalParam/state=%s' % state_kind, ['C01', 'C09', 'C08'], DET + 'DeterministicOde._getEvalParam',
+              also=[DET + 'DeterministicOde.add_compiled_sympy_object.comp_obj'])
+    def eval_param(vc):
+        """the evaluation arguments are [state values (declaration order) | time | parameter values (declaration order)] -- the order of the
+        symbol list _sp = states + [t] + parameters that every evaluator is compiled against (set_sp)"""
+        nS, nP = vc.int('nS', ge=1), vc.int('nP', ge=0)
+        x = vc.array('x', (nS,))
+        t = vc.real('t')
+        from pyvc.lib import SMutList
+        pv = SMutList(nP, z3.Array('paramValue', z3.IntSort(), z3.RealSort()))
+        cls = vc.cls(DET + 'DeterministicOde')
+        obj = ObjVal(cls, {'_paramValue': pv, '_parameters': Builtin('parameter-holder', lambda *a: None), '_paramList': SList(nP, lambda k: None)})
+        state = x if state_kind == 'array' else SList(nS, lambda k: x.get((k,)))
+        out = vc.call(vc.func(DET + 'DeterministicOde._getEvalParam'), obj, state, t, None)
+        vc.ensure('returns normally', out.returned)
+        if not out.returned:
+            return
+        r = out.value
+        n = vc.it.length(r)
+        vc.ensure('one argument per state, one for time, one per parameter', to_num(n) == nS + 1 + nP)
+        k = z3.Int('q_k')
+        vc.assume(z3.And(k >= 0))
+        get = lambda idx: vc.it.getitem(r, idx)
+        from pyvc.values import to_real
+        vc.ctx.solver.push()
+        npc = len(vc.ctx.pc)
+        vc.assume(k < nS)
+        vc.ensure('argument k < nS is the value of state k', to_real(get(k)) == x.get((k,)))
+        vc.ctx.solver.pop()
+        del vc.ctx.pc[npc:]
+        vc.ensure('argument nS is the time', to_real(get(nS)) == t)
+        vc.ctx.solver.push()
+        npc = len(vc.ctx.pc)
+        vc.assume(k < nP)
+        vc.ensure('argument nS + 1 + j is the value bound to parameter j (C09)', to_real(get(nS + 1 + k)) == z3.Select(pv.arr, k))
+        vc.ctx.solver.pop()
+        del vc.ctx.pc[npc:]
+        vc.canary('canary: reachable', z3.BoolVal(False))
+    return eval_param
+
+
+make_eval_param('array')
+make_eval_param('list')
